@@ -106,7 +106,8 @@ Qed.
 
 Definition same_but_children (a b : inst) : Prop :=
   i_flow a = i_flow b /\ i_status a = i_status b /\ i_updated a = i_updated b /\ i_activated a = i_activated b /\
-  i_parent a = i_parent b /\ i_actions a = i_actions b /\ i_heads a = i_heads b /\ i_rest a = i_rest b.
+  i_parent a = i_parent b /\ i_actions a = i_actions b /\ i_heads a = i_heads b /\ i_rest a = i_rest b /\
+  i_scopes a = i_scopes b.
 
 Lemma sbc_refl a : same_but_children a a.
 Proof. unfold same_but_children. tauto. Qed.
@@ -213,7 +214,7 @@ Section Loop.
       intros u i Hi. apply in_sdelete in Hi as [Hi Hne].
       destruct Hfl1 as [->|(p & pi & Hp & ->)].
       + destruct (Hin u i Hi) as (Hnd0 & i0 & H1 & H2 & H3 & H4). split; [auto|].
-        exists i0. repeat split; auto. apply H2. apply H2. apply H2. apply H2. apply H2. apply H2. apply H2. apply H2.
+        exists i0. split; [auto|]. split; [auto|]. split; auto.
       + apply in_supdate in Hi as [(-> & -> & y0 & Hy0)|(Hnp & Hi)].
         * destruct (Hlook p pi Hp) as (i0 & H1 & H2 & H3 & H4).
           destruct (Hin p y0 Hy0) as (Hnd0 & _). split; [auto|].
@@ -330,20 +331,42 @@ Qed.
 
 Definition heads_cleared (i i' : inst) : Prop := i_heads i' = map (fun hs => (fst hs, @nil Z)) (i_heads i).
 
-(* how a surviving instance may differ: scores cleared, removed children pruned; nothing else *)
-Definition frame_rel (gone : string -> Prop) (i i' : inst) : Prop :=
+(* how a surviving instance may differ: scores cleared, removed children pruned, removed flows
+   dropped from the flow lists of its open scopes; nothing else *)
+Definition frame_core (gone : string -> Prop) (i i' : inst) : Prop :=
   i_flow i' = i_flow i /\ i_status i' = i_status i /\ i_updated i' = i_updated i /\
   i_activated i' = i_activated i /\ i_parent i' = i_parent i /\ i_actions i' = i_actions i /\
   i_rest i' = i_rest i /\ heads_cleared i i' /\
   (forall c, In c (i_children i') -> In c (i_children i)) /\
   (forall c, In c (i_children i) -> ~ In c (i_children i') -> gone c).
 
-Section Theorems.
+Definition scopes_rel (gone : string -> Prop) (i i' : inst) : Prop :=
+  map fst (i_scopes i') = map fst (i_scopes i) /\
+  (forall k l', slook (i_scopes i') k = Some l' ->
+     exists l, slook (i_scopes i) k = Some l /\ (forall x, In x l' -> In x l) /\
+               (forall x, In x l -> ~ In x l' -> gone x)).
+
+Definition frame_rel (gone : string -> Prop) (i i' : inst) : Prop :=
+  frame_core gone i i' /\ scopes_rel gone i i'.
+
+(* steps 1-3 and 4 (without step 3b) *)
+Definition cleanup0 (c : cfg) (now : Z) (s : state) : option state :=
+  let s1 := clear_scores s in
+  match fold_left remove_one (to_remove c now s1) (Some s1) with
+  | None => None
+  | Some s2 =>
+    match rebuild_actions (actions s2) (all_action_uids s2) [] with
+    | None => None
+    | Some acts => Some (mkState (flows s2) (by_flow s2) acts (s_rest s2))
+    end
+  end.
+
+Section Theorems0.
   Variable c : cfg.
   Variable now : Z.
   Variable s s' : state.
   Hypothesis Hdict : NoDup (map fst (flows s)).          (* flow_states is a dict *)
-  Hypothesis Hrun : cleanup c now s = Some s'.
+  Hypothesis Hrun : cleanup0 c now s = Some s'.
 
   Let F1 := map (fun kv => (fst kv, clear_heads (snd kv))) (flows s).
   Let rem := to_remove c now (clear_scores s).
@@ -356,7 +379,7 @@ Section Theorems.
                flows s' = flows s2 /\ by_flow s' = by_flow s2 /\ s_rest s' = s_rest s2 /\
                rebuild_actions (actions s2) (all_action_uids s2) [] = Some (actions s').
   Proof.
-    unfold cleanup in Hrun. fold rem in Hrun.
+    unfold cleanup0 in Hrun. fold rem in Hrun.
     destruct (fold_left remove_one rem (Some (clear_scores s))) as [s2|] eqn:E; [|discriminate].
     destruct (rebuild_actions (actions s2) (all_action_uids s2) []) as [acts|] eqn:E2; [|discriminate].
     inversion Hrun; subst s'. simpl. exists s2. split; [|repeat split; auto].
@@ -377,7 +400,7 @@ Section Theorems.
   Proof. unfold F1. apply slook_map_snd. Qed.
 
   (* only done, non-activated, old instances are removed; only unreferenced actions are removed *)
-  Theorem cleanup_only_done :
+  Theorem cleanup0_only_done :
     (forall u i, slook (flows s) u = Some i -> slook (flows s') u = None -> removable c now i = true) /\
     (forall a x, slook (actions s) a = Some x -> slook (actions s') a = None ->
                  forall u i, In (u, i) (flows s') -> ~ In a (i_actions i)).
@@ -396,10 +419,11 @@ Section Theorems.
   Qed.
 
   (* frame: everything else is unchanged *)
-  Theorem cleanup_frame :
+  Theorem cleanup0_frame :
     s_rest s' = s_rest s /\
     (forall u i, slook (flows s) u = Some i -> removable c now i = false ->
-                 exists i', slook (flows s') u = Some i' /\ frame_rel (fun x => slook (flows s') x = None) i i') /\
+                 exists i', slook (flows s') u = Some i' /\ frame_core (fun x => slook (flows s') x = None) i i' /\
+                           i_scopes i' = i_scopes i) /\
     (forall u i', slook (flows s') u = Some i' ->
                   exists i, slook (flows s) u = Some i /\ removable c now i = false) /\
     (forall a x, slook (actions s') a = Some x -> slook (actions s) a = Some x) /\
@@ -423,8 +447,9 @@ Section Theorems.
       exists i2. rewrite Hf. split; [exact H2|].
       destruct (li_look _ _ _ _ _ _ HI u i2 H2) as (i0 & H3 & H4 & H5 & H6).
       rewrite F1_look, Hi in H3. simpl in H3. inversion H3; subst i0.
-      destruct H4 as (E1 & E2 & E3 & E4 & E5 & E6 & E7 & E8). simpl in *.
-      unfold frame_rel, heads_cleared. repeat split; auto.
+      destruct H4 as (E1 & E2 & E3 & E4 & E5 & E6 & E7 & E8 & E9). simpl in *.
+      split; [|auto].
+      unfold frame_core, heads_cleared. repeat split; auto.
       intros x Hx Hnx. rewrite <- Hf. apply Hgone. apply H6; auto.
     - intros u i' Hi'. rewrite Hf in Hi'.
       destruct (li_look _ _ _ _ _ _ HI u i' Hi') as (i0 & H3 & H4 & _).
@@ -440,7 +465,9 @@ Section Theorems.
   Qed.
 
   (* a second clean-up at the same clock value changes nothing *)
-  Theorem cleanup_idempotent : cleanup c now s' = Some s'.
+  Lemma cleanup0_fix_facts :
+    clear_scores s' = s' /\ to_remove c now s' = [] /\
+    rebuild_actions (actions s') (all_action_uids s') [] = Some (actions s').
   Proof.
     destruct cleanup_inv as (s2 & HI & Hf & Hb & Hr & Ha).
     assert (Hcl : clear_scores s' = s').
@@ -459,9 +486,175 @@ Section Theorems.
       unfold F1 in H1. apply in_map_iff in H1 as ([u1 i1] & Heq & Hi1). inversion Heq; subst.
       apply rem_spec. exists i1. split; [apply in_slook; auto|].
       rewrite <- (clear_heads_removable c now i1). rewrite (sbc_removable c now _ _ H2). exact E. }
-    unfold cleanup. rewrite Hcl, Hno. simpl.
+    split; [exact Hcl|]. split; [exact Hno|].
     assert (Hu : all_action_uids s' = all_action_uids s2) by (unfold all_action_uids; now rewrite Hf).
-    rewrite Hu, (rebuild_idem _ _ _ _ Ha). destruct s'; reflexivity.
+    rewrite Hu. exact (rebuild_idem _ _ _ _ Ha).
+  Qed.
+
+
+End Theorems0.
+
+(* ---------------------------------------------------------------------------------- *)
+(* the whole function: cleanup = step 3b after cleanup0 *)
+
+Lemma keep_uids_in rem l x : In x (keep_uids rem l) <-> In x l /\ ~ In x rem.
+Proof.
+  unfold keep_uids. rewrite filter_In. split; intros [H1 H2]; split; auto.
+  - intro H. apply smem_in in H. rewrite H in H2. discriminate.
+  - destruct (smem x rem) eqn:E; [|reflexivity]. apply smem_in in E. contradiction.
+Qed.
+
+Lemma keep_uids_nil l : keep_uids [] l = l.
+Proof. unfold keep_uids. induction l as [|x r IH]; simpl; [reflexivity|f_equal; exact IH]. Qed.
+
+Lemma purge_inst_nil c i : purge_inst c [] i = i.
+Proof.
+  unfold purge_inst. destruct i as [a b d e f ch ac hs sc r]. simpl. f_equal.
+  - destruct (purge_children c); [apply keep_uids_nil|reflexivity].
+  - destruct (purge_scopes c); [|reflexivity].
+    induction sc as [|[k l] t IH]; simpl; [reflexivity|]. rewrite keep_uids_nil. now f_equal.
+Qed.
+
+Lemma purge_flows_nil c l : purge_flows c [] l = l.
+Proof.
+  unfold purge_flows. induction l as [|[k x] r IH]; simpl; [reflexivity|]. rewrite purge_inst_nil. now f_equal.
+Qed.
+
+Lemma slook_purge c rem l u : slook (purge_flows c rem l) u = option_map (purge_inst c rem) (slook l u).
+Proof. unfold purge_flows. apply slook_map_snd. Qed.
+
+Lemma in_purge c rem l u i : In (u, i) (purge_flows c rem l) -> exists i0, In (u, i0) l /\ i = purge_inst c rem i0.
+Proof.
+  unfold purge_flows. intro H. apply in_map_iff in H as ([u0 i0] & Heq & Hin). inversion Heq; subst. eauto.
+Qed.
+
+Lemma slook_scopes_purge rem (sc : list (string * list string)) k :
+  slook (map (fun kl => (fst kl, keep_uids rem (snd kl))) sc) k = option_map (keep_uids rem) (slook sc k).
+Proof. apply (slook_map_snd (keep_uids rem)). Qed.
+
+Lemma cleanup_split c now s :
+  cleanup c now s =
+  match cleanup0 c now s with
+  | None => None
+  | Some s0 => Some (mkState (purge_flows c (to_remove c now (clear_scores s)) (flows s0)) (by_flow s0) (actions s0) (s_rest s0))
+  end.
+Proof.
+  unfold cleanup, cleanup0.
+  destruct (fold_left remove_one (to_remove c now (clear_scores s)) (Some (clear_scores s))) as [s2|]; [|reflexivity].
+  destruct (rebuild_actions (actions s2) (all_action_uids s2) []); reflexivity.
+Qed.
+
+Lemma actions_purge c rem l :
+  flat_map (fun kv : string * inst => i_actions (snd kv)) (purge_flows c rem l)
+  = flat_map (fun kv : string * inst => i_actions (snd kv)) l.
+Proof. unfold purge_flows. induction l as [|[k x] r IH]; simpl; [reflexivity|now rewrite IH]. Qed.
+
+Section Theorems.
+  Variable c : cfg.
+  Variable now : Z.
+  Variable s s' : state.
+  Hypothesis Hdict : NoDup (map fst (flows s)).          (* flow_states is a dict *)
+  Hypothesis Hrun : cleanup c now s = Some s'.
+
+  Let rem := to_remove c now (clear_scores s).
+
+  Lemma cleanup_via0 :
+    exists s0, cleanup0 c now s = Some s0 /\ flows s' = purge_flows c rem (flows s0) /\
+               by_flow s' = by_flow s0 /\ actions s' = actions s0 /\ s_rest s' = s_rest s0.
+  Proof.
+    rewrite cleanup_split in Hrun. destruct (cleanup0 c now s) as [s0|]; [|discriminate].
+    inversion Hrun; subst s'. exists s0. simpl. auto.
+  Qed.
+
+  Lemma look_none u s0 : flows s' = purge_flows c rem (flows s0) ->
+    (slook (flows s') u = None <-> slook (flows s0) u = None).
+  Proof. intros ->. rewrite slook_purge. destruct (slook (flows s0) u); simpl; split; congruence. Qed.
+
+  Theorem cleanup_only_done :
+    (forall u i, slook (flows s) u = Some i -> slook (flows s') u = None -> removable c now i = true) /\
+    (forall a x, slook (actions s) a = Some x -> slook (actions s') a = None ->
+                 forall u i, In (u, i) (flows s') -> ~ In a (i_actions i)).
+  Proof.
+    destruct cleanup_via0 as (s0 & H0 & Hf & Hb & Ha & Hr).
+    destruct (cleanup0_only_done c now s s0 Hdict H0) as [P1 P2]. split.
+    - intros u i Hi Hn. apply (P1 u i Hi). now apply (look_none u s0 Hf).
+    - intros a x Hx Hn u i Hi. rewrite Hf in Hi. apply in_purge in Hi as (i0 & Hi0 & ->). simpl.
+      rewrite Ha in Hn. exact (P2 a x Hx Hn u i0 Hi0).
+  Qed.
+
+  Theorem cleanup_frame :
+    s_rest s' = s_rest s /\
+    (forall u i, slook (flows s) u = Some i -> removable c now i = false ->
+                 exists i', slook (flows s') u = Some i' /\ frame_rel (fun x => slook (flows s') x = None) i i') /\
+    (forall u i', slook (flows s') u = Some i' ->
+                  exists i, slook (flows s) u = Some i /\ removable c now i = false) /\
+    (forall a x, slook (actions s') a = Some x -> slook (actions s) a = Some x) /\
+    (forall u i a, In (u, i) (flows s') -> In a (i_actions i) -> slook (actions s') a <> None) /\
+    (forall f l', slook (by_flow s') f = Some l' ->
+                  exists l, slook (by_flow s) f = Some l /\ (forall x, In x l' -> In x l) /\
+                            (forall x, In x l -> ~ In x l' -> slook (flows s') x = None)) /\
+    (forall f l, slook (by_flow s) f = Some l -> exists l', slook (by_flow s') f = Some l').
+  Proof.
+    destruct cleanup_via0 as (s0 & H0 & Hf & Hb & Ha & Hr).
+    destruct (cleanup0_frame c now s s0 Hdict H0) as (F0 & F1 & F2 & F3 & F4 & F5 & F6).
+    assert (Hg : forall x, slook (flows s0) x = None -> slook (flows s') x = None)
+      by (intros x; apply (look_none x s0 Hf)).
+    assert (Hrem : forall x, In x rem -> slook (flows s') x = None).
+    { intros x Hx. apply Hg. destruct (slook (flows s0) x) as [i'|] eqn:E; [|reflexivity]. exfalso.
+      destruct (F2 x i' E) as (i & Hi & Hnr).
+      apply (rem_spec c now s Hdict) in Hx as (i2 & Hi2 & Hr2). rewrite Hi in Hi2. inversion Hi2; subst. congruence. }
+    split; [congruence|]. split; [|split; [|split; [|split; [|split]]]].
+    - intros u i Hi Hnr. destruct (F1 u i Hi Hnr) as (i0 & Hi0 & Hc & Hsc).
+      exists (purge_inst c rem i0). split; [rewrite Hf, slook_purge, Hi0; reflexivity|].
+      destruct Hc as (E1 & E2 & E3 & E4 & E5 & E6 & E7 & E8 & E9 & E10).
+      split.
+      + unfold frame_core, heads_cleared in *. simpl. repeat split; auto.
+        * intros x Hx. apply E9. destruct (purge_children c); [apply keep_uids_in in Hx; tauto|exact Hx].
+        * intros x Hx Hnx. destruct (purge_children c).
+          -- destruct (in_dec string_dec x (i_children i0)) as [Hin|Hin].
+             ++ apply Hrem. destruct (in_dec string_dec x rem) as [?|Hnr2]; [assumption|].
+                exfalso. apply Hnx. apply keep_uids_in. tauto.
+             ++ apply Hg. apply E10; auto.
+          -- apply Hg. apply E10; auto.
+      + unfold scopes_rel. simpl. rewrite <- Hsc. destruct (purge_scopes c).
+        * split; [rewrite map_map; reflexivity|].
+          intros k l' Hl'. rewrite slook_scopes_purge in Hl'.
+          destruct (slook (i_scopes i0) k) as [l|] eqn:El; [|discriminate]. simpl in Hl'. inversion Hl'; subst l'.
+          exists l. split; [reflexivity|]. split.
+          -- intros x Hx. apply keep_uids_in in Hx. tauto.
+          -- intros x Hx Hnx. apply Hrem. destruct (in_dec string_dec x rem) as [?|Hnr2]; [assumption|].
+             exfalso. apply Hnx. apply keep_uids_in. tauto.
+        * split; [reflexivity|]. intros k l' Hl'. exists l'. split; [exact Hl'|]. split; [auto|tauto].
+    - intros u i' Hi'. rewrite Hf, slook_purge in Hi'. destruct (slook (flows s0) u) as [i0|] eqn:E; [|discriminate].
+      exact (F2 u i0 E).
+    - intros a x Hx. rewrite Ha in Hx. auto.
+    - intros u i a Hi Hin. rewrite Hf in Hi. apply in_purge in Hi as (i0 & Hi0 & ->). simpl in Hin.
+      rewrite Ha. eapply F4; eauto.
+    - intros f l' Hl'. rewrite Hb in Hl'. destruct (F5 f l' Hl') as (l & H1 & H2 & H3).
+      exists l. split; [auto|]. split; [auto|]. intros x Hx Hnx. apply Hg. auto.
+    - intros f l Hl. rewrite Hb. exact (F6 f l Hl).
+  Qed.
+
+  (* a second clean-up at the same clock value changes nothing *)
+  Theorem cleanup_idempotent : cleanup c now s' = Some s'.
+  Proof.
+    destruct cleanup_via0 as (s0 & H0 & Hf & Hb & Ha & Hr).
+    destruct (cleanup0_fix_facts c now s s0 Hdict H0) as (Hcl & Hno & Hre).
+    assert (Hcl' : clear_scores s' = s').
+    { unfold clear_scores in *. destruct s' as [fl bf ac rs], s0 as [fl0 bf0 ac0 rs0]. simpl in *. f_equal.
+      inversion Hcl as [Hm]. subst fl. unfold purge_flows. rewrite map_map. simpl.
+      rewrite <- Hm at 2. rewrite map_map. simpl. apply map_ext. intros [u i]. reflexivity. }
+    assert (Hno' : to_remove c now s' = []).
+    { unfold to_remove in *. rewrite filter_none; [reflexivity|]. intros [u i] Hi. simpl.
+      rewrite Hf in Hi. apply in_purge in Hi as (i0 & Hi0 & ->).
+      change (removable c now (purge_inst c rem i0)) with (removable c now i0).
+      destruct (removable c now i0) eqn:E; [|reflexivity]. exfalso.
+      assert (In (u, i0) (filter (fun kv => removable c now (snd kv)) (flows s0))) by (apply filter_In; auto).
+      destruct (filter (fun kv => removable c now (snd kv)) (flows s0)); [contradiction|discriminate]. }
+    rewrite cleanup_split. unfold cleanup0. rewrite Hcl', Hno'. simpl.
+    assert (Hu : all_action_uids s' = all_action_uids s0).
+    { unfold all_action_uids. rewrite Hf. apply actions_purge. }
+    rewrite Hu, Ha, Hre. simpl. rewrite purge_flows_nil. destruct s'; simpl in *; subst; reflexivity.
   Qed.
 
   (* the part of event dispatch that is modelled: resolving the entries of the matcher index.
@@ -489,16 +682,17 @@ Section Theorems.
       exists (fst e), (snd e), i, i'. unfold resolve. rewrite Hi, Hi'.
       destruct (slook (i_heads i) (snd e)) as [sc|] eqn:Eh; [|congruence].
       pose proof Hfr as Hfr0.
-      destruct Hfr as (_ & _ & _ & _ & _ & _ & _ & Hc & _). unfold heads_cleared in Hc. rewrite Hc.
+      destruct Hfr as ((_ & _ & _ & _ & _ & _ & _ & Hc & _) & _). unfold heads_cleared in Hc. rewrite Hc.
       rewrite slook_clear, Eh. simpl. split; [reflexivity|split; [reflexivity|exact Hfr0]].
     - apply IH. intros; apply H; now right.
   Qed.
 End Theorems.
 
+
 (* with the constants of the unchanged source: removed => FINISHED or STOPPED, not activated,
    strictly older than the age *)
-Lemma removable_meaning age0 now i :
-  removable (mkCfg age0 true true true ["FINISHED"; "STOPPED"]) now i = true ->
+Lemma removable_meaning age0 pc ps now i :
+  removable (mkCfg age0 true true true ["FINISHED"; "STOPPED"] pc ps) now i = true ->
   (i_status i = "FINISHED" \/ i_status i = "STOPPED") /\ i_activated i = 0 /\ age0 < now - i_updated i.
 Proof.
   unfold removable, is_done, old_enough, smem. simpl. intro H.
